@@ -1,12 +1,15 @@
 (* Correspondence entry point for C16.
    case = VTup [VInt op; VList data; layout; seed; params; streams; exps; logs; tag]
      layout = VInt numSlices                 the dataset is parallelize(data, numSlices)
-            | VTup [_; _; VList partitions]  the dataset is some other parent (union, mapPartitions(list), cached ...)
+            | VTup [_; _; VList partitions; ...]  the dataset is some other parent (union, mapPartitions(list), cached ...)
                                              whose partitions are given; sampling only sees the partitions
      op 0 sample        params = VTup [VBool withReplacement; VFloat fraction; _]
      op 1 sampleByKey   params = VTup [VBool withReplacement; VList [VTup [key; VFloat fraction]]]
      op 2 takeSample    params = VTup [VBool withReplacement; VInt num]
      op 3 randomSplit   params = VTup [VList weights]            (VInt / VFloat)
+     op 4 the same sampled dataset s = sample(...) / sampleByKey(...) evaluated at different depths
+                        params = VTup [VBool withReplacement; VBool keyed; VFloat fraction | fractions; VInt seed2]
+                        value  = [collect; count; eight more views that must all be collect; s.sample(False, 1.0, seed2)]
      seed    = VInt z | VNone
      streams = VList [VTup [key; VList floats; VList raw ints]]   key = VInt z | VNone | VStr "g" (module level)
      exps / logs = VList [VTup [VFloat x; VFloat (math.exp x / math.log x)]]
@@ -101,7 +104,7 @@ Definition enc_list (O : oracle) (g0 : gstate) (r : res (list val * gstate)) : v
 Definition dec_layout (data : list val) (layout : val) : option (list (list val)) :=
   match layout with
   | VInt nsl => Some (parallelize val data nsl)
-  | VTup [_; _; VList ps] => as_parts ps
+  | VTup (_ :: _ :: VList ps :: _) => as_parts ps
   | _ => None
   end.
 
@@ -130,6 +133,36 @@ Definition run (c : val) : val :=
               end
           | 2, VTup [VBool wr; VInt num] =>
               enc_list O g0 (takeSample fexp flog val val key_of_val val_eqb O wr num seed parts g0)
+          | 4, VTup [VBool wr; VBool keyed; fr; VInt seed2] =>
+              let so :=
+                if keyed then
+                  match fr with
+                  | VList l => match dec_list dec_frac l with
+                               | Some tbl => Some (if wr then SPoisKey val tbl else SBernKey val tbl)
+                               | None => None
+                               end
+                  | _ => None
+                  end
+                else
+                  match fr with
+                  | VFloat f => Some (if wr then SPois val (Prim2SF f) else SBern val (Prim2SF f))
+                  | _ => None
+                  end in
+              match so with
+              | None => VBad
+              | Some s =>
+                  match sample_rdd fexp val val key_of_val val_eqb O s seed parts g0 with
+                  | Err e => VErr e
+                  | Ok (ps, g1) =>
+                      match sample_rdd fexp val val key_of_val val_eqb O (SBern val sf_one) (KInt seed2) ps g1 with
+                      | Err e => VErr e
+                      | Ok (ps2, g2) =>
+                          let fl := VList (List.concat ps) in
+                          VTup [VList [fl; VInt (lenZ (List.concat ps)); fl; fl; fl; fl; fl; fl; fl; VList (List.concat ps2)];
+                                gsig O g0 g2]
+                      end
+                  end
+              end
           | 3, VTup [VList ws] =>
               match dec_list dec_weight ws with
               | Some w => enc_parts O g0 (randomSplit val O w seed parts g0)
